@@ -11,6 +11,7 @@ import CdsVerif.Algo.MSQueue.Model
 import CdsVerif.Algo.Moir.Model
 import CdsVerif.Algo.RWQueue.Model
 import CdsVerif.Algo.Optimistic.Model
+import CdsVerif.Algo.Basket.Model
 import CdsVerif.Algo.Ring.Model
 import CdsVerif.Algo.VoidRing.Model
 import CdsVerif.Algo.Vyukov.Model
@@ -119,6 +120,12 @@ def main (args : List String) : IO UInt32 := do
     replayLoop stdin CdsVerif.Algo.Optimistic.model (fun _ => CdsVerif.Algo.Optimistic.init)
       (fun loc => loc == "head" || loc == "tail" ||
         ((loc.startsWith "n" || loc.startsWith "p") && loc.length > 1 && (loc.drop 1).all Char.isDigit)) (fun _ => true) none
+    return 0
+  | ["replay", "basket"] =>
+    -- hidden harness variant `ibasket_named` of the `queue` client (as ibasket_hp, warm-up nodes named too; marked pointers print as
+    -- n<k>|1); machine Algo/Basket, initial state from the header word `index=` (warm-up length index % 3)
+    replayLoop stdin CdsVerif.Algo.Basket.model (fun cfg => CdsVerif.Algo.Basket.initCfg cfg)
+      (fun loc => loc == "head" || loc == "tail" || (loc.startsWith "n" && loc.length > 1 && (loc.drop 1).all Char.isDigit)) (fun _ => true) none
     return 0
   | ["replay", "treiber"] =>
     replayLoop stdin CdsVerif.Algo.Treiber.model (fun _ => CdsVerif.Algo.Treiber.init)
